@@ -749,4 +749,137 @@ theorem parseStep_nohang {p : P} (g : Grammar) (s : List Char) (hadv : Adv p) (h
       by_cases hc : (nd.mayIdx || decide (pre ≥ s.length)) = true <;> simp [hc]
     | hang => exact absurd h hi
 
+/-! ### scan_string -/
+
+/-- pre-parsing never aborts with a plain ParseException (`_skipIgnorables` swallows it, core.py:787-789) -/
+theorem ignoreOne_abort_np (p : P) (e : Nat) :
+    ∀ k loc found o f, ignoreOne p e k loc found = (.abort o, f) → ∀ l, o ≠ .fail .parse l := by
+  intro k
+  induction k with
+  | zero => intro loc found o f h l; simp [ignoreOne] at h; rw [← h.1]; simp
+  | succ k ih =>
+    intro loc found o f h l
+    unfold ignoreOne at h
+    cases hp : p e loc true true with
+    | ok l' ts =>
+      rw [hp] at h
+      simp only at h
+      split at h
+      · simp at h; rw [← h.1]; simp
+      · exact ih _ _ _ _ h l
+    | fail c l' =>
+      rw [hp] at h
+      cases c <;> simp at h <;> (rw [← h.1]; simp)
+    | idx => rw [hp] at h; simp at h; rw [← h.1]; simp
+    | hang => rw [hp] at h; simp at h; rw [← h.1]; simp
+
+theorem ignorePass_abort_np (p : P) (slen : Nat) :
+    ∀ es loc found o f, ignorePass p slen es loc found = (.abort o, f) → ∀ l, o ≠ .fail .parse l := by
+  intro es
+  induction es with
+  | nil => intro loc found o f h; simp [ignorePass] at h
+  | cons e es ih =>
+    intro loc found o f h
+    unfold ignorePass at h
+    cases h1 : ignoreOne p e (slen + 2) loc found with
+    | mk r f1 =>
+      rw [h1] at h
+      cases r with
+      | «at» l1 => exact ih _ _ _ _ h
+      | abort o1 => simp at h; rw [← h.1]; exact ignoreOne_abort_np p e _ _ _ _ _ h1
+
+theorem skipIgnorables_abort_np (p : P) (slen : Nat) (ign : List Nat) :
+    ∀ k loc o, skipIgnorables p slen ign k loc = .abort o → ∀ l, o ≠ .fail .parse l := by
+  intro k
+  induction k with
+  | zero => intro loc o h l; simp [skipIgnorables] at h; rw [← h]; simp
+  | succ k ih =>
+    intro loc o h
+    unfold skipIgnorables at h
+    cases h1 : ignorePass p slen ign loc false with
+    | mk r f1 =>
+      rw [h1] at h
+      cases r with
+      | «at» l1 =>
+        simp only at h
+        split at h
+        · simp at h
+        · exact ih _ _ h
+      | abort o1 => simp at h; rw [← h]; exact ignorePass_abort_np p slen _ _ _ _ _ h1
+
+theorem preParse_abort_np (p : P) (nd : Node) (s : List Char) (loc : Nat) (o : Out) (h : preParse p nd s loc = .abort o) :
+    ∀ l, o ≠ .fail .parse l := by
+  unfold preParse at h
+  split at h
+  · simp at h
+  · by_cases hi : nd.ignore.isEmpty = true
+    · simp [hi] at h
+    · simp only [hi] at h
+      cases h1 : skipIgnorables p s.length nd.ignore (s.length + 2) loc with
+      | «at» l1 => rw [h1] at h; simp at h
+      | abort o1 => rw [h1] at h; simp at h; rw [← h]; exact skipIgnorables_abort_np p _ _ _ _ _ h1
+
+theorem scanPre_nohang {p : P} (nd : Node) (sk : Bool) (s : List Char) (hb : BndAll s.length p)
+    (hig : ∀ e ∈ nd.ignore, NH p e ∧ IgnAdv p e) (loc : Nat) : scanPre p nd sk s loc ≠ .abort .hang := by
+  unfold scanPre
+  split
+  · exact preParse_nohang { nd with kind := .empty, skipWs := true } s hb hig loc
+  · exact preParse_nohang nd s hb hig loc
+
+theorem scanPre_abort_np (p : P) (nd : Node) (sk : Bool) (s : List Char) (loc : Nat) (o : Out)
+    (h : scanPre p nd sk s loc = .abort o) : ∀ l, o ≠ .fail .parse l := by
+  unfold scanPre at h
+  split at h <;> exact preParse_abort_np _ _ _ _ _ h
+
+theorem scanPre_ge' (p : P) (nd : Node) (sk : Bool) (s : List Char) (loc l : Nat)
+    (h : scanPre p nd sk s loc = .at l) : loc ≤ l := by
+  unfold scanPre at h
+  split at h <;> exact preParse_ge _ _ _ _ _ h
+
+/-- the scan_string driver loop: its budget `2·len + 4` is never exhausted (the location strictly increases and the
+    loop leaves once it is past the end), and nothing inside it hangs -/
+theorem scanLoop_nohang {p : P} (nd : Node) (root : Nat) (s : List Char) (sk ov : Bool) (hb : BndAll s.length p)
+    (hig : ∀ e ∈ nd.ignore, NH p e ∧ IgnAdv p e) (hroot : NH p root) :
+    ∀ k loc left acc, 1 ≤ k → s.length + 2 ≤ k + loc → (scanLoop p nd root s sk ov k loc left acc).exc ≠ some .hang := by
+  intro k
+  induction k with
+  | zero => intro loc left acc h1; omega
+  | succ k ih =>
+    intro loc left acc _ h2
+    unfold scanLoop
+    split
+    · simp
+    · rename_i hcond
+      have hloc : loc ≤ s.length := by
+        simp at hcond; omega
+      cases hpre : scanPre p nd sk s loc with
+      | abort o =>
+        cases o with
+        | ok e ts => simp
+        | fail c l =>
+          cases c
+          · exact absurd rfl (scanPre_abort_np p nd sk s loc _ hpre l)
+          · simp
+          · simp
+        | idx => simp
+        | hang => exact absurd hpre (scanPre_nohang nd sk s hb hig loc)
+      | «at» preloc =>
+        have hge := scanPre_ge' p nd sk s loc preloc hpre
+        simp only
+        cases h0 : p root preloc true false with
+        | ok nextLoc ts =>
+          simp only
+          split
+          · split
+            · exact ih _ _ _ (by omega) (by split <;> omega)
+            · exact ih _ _ _ (by omega) (by omega)
+          · exact ih _ _ _ (by omega) (by omega)
+        | fail c l =>
+          cases c
+          · exact ih _ _ _ (by omega) (by omega)
+          · simp
+          · simp
+        | idx => simp
+        | hang => exact absurd h0 (hroot _ _ _)
+
 end PP.Parse
